@@ -7,9 +7,16 @@
 
 mod alloc;
 mod canon;
+mod games;
+mod idcheck;
+mod gen_games;
+mod master;
 mod net;
+mod quake;
 mod reader;
+mod settings;
 mod valve;
+mod views;
 mod minecraft;
 
 use std::io::{BufRead, Write};
@@ -24,6 +31,11 @@ fn entries() -> Vec<(&'static str, EntryFn)> {
     let mut v: Vec<(&'static str, EntryFn)> = Vec::new();
     v.extend(reader::entries());
     v.extend(valve::entries());
+    v.extend(master::entries());
+    v.extend(settings::entries());
+    v.extend(games::entries());
+    v.extend(idcheck::entries());
+    v.extend(quake::entries());
     v.extend(minecraft::entries());
     v
 }
